@@ -1715,6 +1715,16 @@ class LLParser:
                     if suffix_elem.value is not None:
                         t_elem.value.extend(suffix_elem.value)
 
+                if new_elem_value is not None:
+                    # the node ends where its last not-empty child ends
+                    last_matched = next(
+                        (c for c in reversed(t_elem.value)
+                         if c.start_pos.coords != c.end_pos.coords),
+                        None)
+                    t_elem.end_pos = (
+                        t_elem.start_pos if last_matched is None
+                        else last_matched.end_pos)
+
                 new_token_pos = top.cur_token_pos
                 parse_stack.pop()
 
